@@ -373,7 +373,16 @@ fn viterbi_traceback(vals: Array2<LogProb>, from: Array2<usize>) -> (Vec<State>,
 /// - `O` - the observation type
 /// - `M` - type `Model` type
 pub fn viterbi<O, M: Model<O>>(hmm: &M, observations: &[O]) -> (Vec<State>, LogProb) {
-    let (vals, from) = viterbi_matrices(hmm, observations);
+    let (mut vals, from) = viterbi_matrices(hmm, observations);
+    // A model with an explicit end state ends in state `s` with probability `end_prob(s)`: like
+    // `forward` and `backward`, the probability of a path includes that term.
+    if hmm.has_end_state() {
+        if let Some(last) = observations.len().checked_sub(1) {
+            for s in hmm.states() {
+                vals[[last, *s]] = vals[[last, *s]] + hmm.end_prob(s);
+            }
+        }
+    }
     viterbi_traceback(vals, from)
 }
 
